@@ -48,6 +48,7 @@ def main(tier):
     chk.run("R-OKCOVER", B.okcover, r, floor=3)
     chk.run("R-RTSYMS", C.rtsyms, r, cx.cpp, cx.templates, floor=10)
     chk.run("R-SYNTH", SY.synth, r, floor=12)
+    chk.run("R-NEXTPREV", SY.nextprev, r, floor=1)
     chk.run("R-INCIDENTAL-PURE", TV.incidental_pure, r, cx.schema, cx.sites, floor=8)
     chk.run("R-INTERMEDIATE", RG.intermediate, r, floor=2)
     chk.run("R-RENDERCONST", RG.renderconst, r, floor=30)
